@@ -122,8 +122,8 @@ example : identOk b!"bad key" = false ∧ identOk b!"good_1" = true := by decide
 
 /-! ### the whole interpreter: nothing a construct binds escapes it
 
-`sview` is the observable part of the context stack (every context's identity, private and public
-bindings, escaping mode, template chain — all but the recursion counter).  These theorems hold for
+`sview fs` is the context stack `fs` itself: "unchanged" below means identical — every context's
+identity, private and public bindings, escaping mode, template chain and recursion counter.  These theorems hold for
 every fuel, every node / expression (any nesting), every starting state, and whether or not the
 execution fails; they come from one simultaneous induction over all functions of the interpreter
 (`Lemmas/KeepsAll.lean`). -/
